@@ -84,26 +84,66 @@ Theorem C05_rejects_nd : forall li ds ixs out, getitem li ds ixs = Ok out ->
 Proof. exact getitem_ok_axes. Qed.
 Print Assumptions C05_rejects_nd.
 
-(* shape / dtype: every answer has the dtype property of the indexer and the shape obtained by
-   folding the declared new_shape functions over the pre-transform shape.
-   FULL STATEMENT NOT CLOSED (kept visible):
-     forall li ds out s, lazy_shape li = Ok s -> getitem li ds [] = Ok out ->
-       nd_shape (a_nd out) = s /\ a_dtype out = lazy_dtype li
-   missing: take_shape (lazy_sels li []) = initial_shape li (needs the stage-1-valid hypothesis and the
-   full-slice case of C05_axis); this instance is carried by the correspondence (shape_dtype_vs_full). *)
-Theorem C05_shape_dtype_partial : forall li ds ixs out, getitem li ds ixs = Ok out ->
+(* C05_shape_dtype (full strength): the .shape and .dtype properties are the shape and dtype of self[:],
+   for every source, first stage (that exists) and transform chain accepted at construction. *)
+Theorem C05_shape_dtype : forall shape ds k1 ts dt li a1 out s,
+  Forall (fun d => 0 <= d) shape ->
+  mk_lazy shape k1 ts dt = Ok li -> oindex_keep (mk_nd shape ds) k1 = Ok a1 ->
+  lazy_shape li = Ok s -> getitem li ds [] = Ok out ->
+  nd_shape (a_nd out) = s /\ a_dtype out = lazy_dtype li.
+Proof. exact getitem_full_shape_dtype. Qed.
+Print Assumptions C05_shape_dtype.
+
+(* every answer (any index) has the dtype property and the shape obtained by folding the declared new_shape *)
+Theorem C05_shape_dtype_any_index : forall li ds ixs out, getitem li ds ixs = Ok out ->
   a_dtype out = lazy_dtype li /\
   exists sels, lazy_sels li ixs = Ok sels /\
     nd_shape (a_nd out) = fold_left (fun sh t => tr_new_shape t sh) (li_ts li) (take_shape sels).
 Proof. exact getitem_shape_dtype. Qed.
-Print Assumptions C05_shape_dtype_partial.
+Print Assumptions C05_shape_dtype_any_index.
 
-(* C05_concat.  FULL STATEMENT NOT CLOSED (kept visible):
-     forall raws ts ix c out, c_mk raws ts = Ok c -> (every part's first stage exists) ->
-       head index scalar / positive-stride slice / mask / integer list, tail scalars in range ->
-       c_getitem c ix = Ok out -> spec_concat raws ts ix = Ok out
-   Proved here: the arithmetic core of the slice branch (first_in_part) and, by evaluation, agreement
-   on examples of each branch; the general equality is carried by the correspondence only. *)
+(* C05_concat.  Proved (C05_concat_partial): for ANY number of parts with their running offsets, each part
+   behaving like outer indexing of its own first-stage result [f] (part_ok; C05_concat_parts shows that every
+   LazyIndexer part does, by C05_getitem), every tail index and every transform chain of the concatenation:
+   if the concatenated indexer answers a request whose head index is a scalar (incl. negative), a slice
+   (any start/stop; negative steps are rejected by the code) or a mask, the answer is exactly
+   transforms(oindex (concatenation of the parts' results) ix): values, shape and dtype.  No guard for the
+   open findings F10 / F10b / F30b is needed: there the indexer raises, the implication holds.
+   NOT CLOSED (full statement kept visible):
+     (a) head = integer list (scatter_parts / scatter): same conclusion; the branch proof is missing;
+     (b) the bridge from c_mk / spec_concat to this statement: c_mk drops parts without data on the first axis
+         (keeps the first when all are empty) while spec_concat concatenates all parts:
+           forall raws ts ix c out, Forall (fun r => shape non-negative, non-empty, same dtype) raws ->
+             (every part's first stage exists) -> c_mk raws ts = Ok c -> c_getitem c ix = Ok out ->
+             spec_concat raws ts ix = Ok out.
+   Both are carried by the correspondence (wire 52 compares c_mk/c_getitem with spec_concat on every case). *)
+Theorem C05_concat_partial : forall ps fs T dt,
+  Forall2 (part_ok T dt) ps fs -> ps <> [] -> Forall (fun p => 0 <= part_len p) ps ->
+  forall ts ixs out,
+  c_initial_dtype ps = Ok dt ->
+  head_proved (hd full (pad_to (Datatypes.S (List.length T)) ixs)) ->
+  c_getitem (mk_concat ps ts) ixs = Ok out ->
+  (r <- oindex (mk_nd (zsum (map part_len ps) :: T)
+                      (Node (List.concat (map (fun f => children (nd_body f)) fs)))) ixs ;;
+   apply_transforms ts (mk_arr dt r)) = Ok out.
+Proof. exact concat_core. Qed.
+Print Assumptions C05_concat_partial.
+
+(* every real part satisfies the hypothesis of C05_concat_partial *)
+Theorem C05_concat_parts : forall r li a1,
+  Forall (fun d => 0 <= d) (r_shape r) -> r_shape r <> [] ->
+  mk_lazy (r_shape r) (r_keep r) [] (r_dt r) = Ok li ->
+  oindex_keep (mk_nd (r_shape r) (r_ds r)) (r_keep r) = Ok a1 ->
+  part_ok (tl (nd_shape a1)) (r_dt r) (mk_cpart li (r_ds r)) a1 /\ 0 <= part_len (mk_cpart li (r_ds r)).
+Proof. exact part_ok_of_raw. Qed.
+Print Assumptions C05_concat_parts.
+
+(* arithmetic core of the slice branch: splitting a progression at a part boundary *)
+Theorem C05_concat_split : forall st e B, 0 < st -> forall (n : nat) s, e - s <= Z.of_nat n ->
+  py_range s e st = py_range s (Z.min B e) st ++ py_range (first_ge s st B) e st.
+Proof. exact py_range_split. Qed.
+Print Assumptions C05_concat_split.
+
 Theorem C05_concat_first_in_part : forall start off stride, 0 < stride -> start < off ->
   let cs := (start - off) mod stride in
   0 <= cs < stride
@@ -149,17 +189,3 @@ Theorem C05_concat_empty_tail_refuted :
   /\ spec_concat two_parts [] [full; ASlice (Some 1) (Some 0) None] <> Err.
 Proof. exact concat_empty_tail_refuted. Qed.
 Print Assumptions C05_concat_empty_tail_refuted.
-
-(* F32: wrong data *)
-Theorem C05_concat_negative_step_refuted :
-  exists out, run_concat parts_3_1 [ASlice (Some (-9)) (Some 1) (Some (-1))] = Ok out
-  /\ spec_concat parts_3_1 [] [ASlice (Some (-9)) (Some 1) (Some (-1))] <> Ok out
-  /\ spec_concat parts_3_1 [] [ASlice (Some (-9)) (Some 1) (Some (-1))] <> Err.
-Proof. exact concat_negative_step_refuted. Qed.
-Print Assumptions C05_concat_negative_step_refuted.
-
-(* F33 *)
-Theorem C05_concat_unchecked_tail_scalar_refuted :
-  exists out, run_concat two_parts [AList []; AInt 5] = Ok out /\ spec_concat two_parts [] [AList []; AInt 5] = Err.
-Proof. exact concat_unchecked_tail_scalar_refuted. Qed.
-Print Assumptions C05_concat_unchecked_tail_scalar_refuted.
